@@ -7,6 +7,7 @@ import (
 	"path/filepath"
 	"sort"
 	"strings"
+	"time"
 
 	"github.com/couchbase/moss"
 	"verifsim/simrt"
@@ -36,6 +37,12 @@ func genFault(c *Case, r *simrt.Rand, tier string) {
 	c.Flags["finalReopen"] = true
 	c.Flags["tier-"+tier] = true
 }
+
+// Deadline, when set by the worker, ends enumerations (inner fault runs, crash
+// images) of the case in progress once the wall-clock budget is used up.  It
+// only decides how much of a case is explored, never the verdict of anything
+// that is explored.
+var Deadline time.Time
 
 func kindsFor(class string) []string {
 	switch class {
@@ -118,7 +125,17 @@ func RunFaultEnum(c *Case) (*Outcome, error) {
 	} else {
 		out.Probes["fault-enum-exhaustive"]++
 	}
+	// drawn order: when the worker's wall-clock budget ends in the middle of a
+	// case the inner runs done so far are an even sample of the plan
+	for i := len(plans) - 1; i > 0; i-- {
+		j := r.Intn(i + 1)
+		plans[i], plans[j] = plans[j], plans[i]
+	}
 	for _, pl := range plans {
+		if !Deadline.IsZero() && time.Now().After(Deadline) {
+			out.Probes["fault-enum-cut-by-budget"]++
+			break
+		}
 		inner := cloneCase(base)
 		inner.Faults = []Fault{pl.f}
 		inner.MaxSteps = 80000
